@@ -20,13 +20,14 @@ const flagsPath = "github.com/jessevdk/go-flags"
 
 // Ctx is the resolved program under analysis.
 type Ctx struct {
-	Fset  *token.FileSet
-	Prog  *ssa.Program
-	Pkg   *ssa.Package
-	PPkg  *packages.Package
-	Types *types.Package
-	Funcs []*ssa.Function          // every function of the package incl. anonymous ones, sorted by name
-	ByNam map[string]*ssa.Function // RelString name -> function
+	pnames map[*ssa.Function][]string // term names of parameters (pname)
+	Fset   *token.FileSet
+	Prog   *ssa.Program
+	Pkg    *ssa.Package
+	PPkg   *packages.Package
+	Types  *types.Package
+	Funcs  []*ssa.Function          // every function of the package incl. anonymous ones, sorted by name
+	ByNam  map[string]*ssa.Function // RelString name -> function
 	// constant names of named constant types: type name -> exact value -> const name
 	constNames map[string]map[string]string
 	// closure creation sites: anon fn -> MakeClosure instruction
